@@ -15,7 +15,13 @@ sys.path.insert(0, os.path.join(ROOT, "lib"))
 from tterm import to_gallina, TermError, selftest as tterm_selftest  # noqa: E402
 
 COQ = os.path.join(ROOT, "coq")
-BUILD = os.path.join(ROOT, ".build")
+# Registered commands always run against /repo and write under /verif.  For experiments (trying a seeded patch on a
+# scratch worktree, seed sweeps in parallel) VERIF_REPO points the harness build at another tree and VERIF_SANDBOX
+# redirects every output (build, run, replays, evidence) to a scratch directory.
+REPO = os.environ.get("VERIF_REPO", "/repo")
+SANDBOX = os.environ.get("VERIF_SANDBOX")
+BUILD = os.path.join(SANDBOX, "build") if SANDBOX else os.path.join(ROOT, ".build")
+OUT = SANDBOX if SANDBOX else ROOT
 FORBIDDEN = re.compile(
     r"\b(Admitted|admit|Axiom|Axioms|Parameter|Parameters|Conjecture|Conjectures|"
     r"Unset\s+Guard|bypass_check|type-in-type|impredicative-set|Admit\s+Obligations|native_compute)\b"
@@ -131,7 +137,14 @@ def go_build(mod, race=False):
     os.makedirs(BUILD, exist_ok=True)
     with open(os.path.join(BUILD, "go-%s.lock" % mod), "w") as lk:
         fcntl.flock(lk, fcntl.LOCK_EX)
-        cmd = ["go", "build", "-tags", "verif"] + (["-race"] if race else []) + ["-o", binp, "."]
+        cmd = ["go", "build", "-tags", "verif"] + (["-race"] if race else []) + ["-o", binp]
+        if REPO != "/repo":
+            mf = os.path.join(BUILD, mod + "-alt.mod")
+            txt = open(os.path.join(src, "go.mod")).read().replace("=> /repo", "=> " + REPO)
+            open(mf, "w").write(txt)
+            open(mf[:-4] + ".sum", "w").write(open(os.path.join(src, "go.sum")).read())
+            cmd += ["-modfile", mf]
+        cmd += ["."]
         rc, out, dt = sh(cmd, cwd=src, env=GOENV, timeout=1500)
     return rc, out, binp, dt
 
